@@ -122,12 +122,30 @@ def stacked_then_mirror_concat(rng):
     return ops_
 
 
+def rich_value(rng):
+    """A value with a deep stack: 3-5 settings from a conflict-rich list applied over seed-drawn ranges
+    (several reaching the end, some nested, some below) so that later random operations act on
+    characters carrying three or more settings, equal-valued duplicates and conflicts."""
+    n = rng.choice([3, 4, 5, 6])
+    text = ''.join(rng.choice('ab-') for _ in range(n))
+    ops_ = [_new(text, [rng.choice(CONFLICT_RICH)] if rng.random() < 0.5 else None, 0)]
+    pool = [rng.choice(CONFLICT_RICH) for _ in range(3)]     # few distinct atoms -> duplicates and conflicts
+    for _ in range(rng.choice([3, 4, 5])):
+        a = rng.randrange(n)
+        b = None if rng.random() < 0.45 else rng.randint(a + 1, n)
+        ops_.append(_apply(0, [rng.choice(pool)], a, b, top=rng.random() < 0.7))
+    return ops_
+
+
 def pick(rng, prop):
     x = rng.random()
     name = rng.choice(NAMES)
     gen = stacked_then_mirror_concat(rng)
-    if x < 0.28:
+    rich = rich_value(rng)
+    if x < 0.24:
         return copy.deepcopy(SCENARIOS[name])
-    if x < 0.36:
+    if x < 0.32:
         return gen
+    if x < 0.46:
+        return rich
     return None
